@@ -108,9 +108,9 @@ CLAIMS = {
             "Modelled, not verified: Linux semantics of rename/chown/chmod/O_EXCL as abstracted in Fs.v; the multi-link in-place rewrite has a theorem for fault-free runs (same inode, new content, mode/owner/links kept, mtime restored); under faults and 'each inode once' it is checked by correspondence and oracle.",
             "DESIGN.md section 5-C09"),
     "C10": ("Coq theorem: in check mode, for every handler result (errors and panics included), shape, profile and any single failing operation, the file system after the run and at every "
-            "intermediate point IS the initial one and only non-mutating operations are issued. Tied to the code by strace'd --check runs (no mutating syscall; snapshot incl. directory "
+            "intermediate point IS the initial one and only non-mutating operations are issued; and for one file, absent failures, check mode reports exactly the result a real run reports. Tied to the code by strace'd --check runs (no mutating syscall; snapshot incl. directory "
             "mtimes unchanged; class/trace = model) and by comparing counts and verdict with a real run on an identical tree, serially and with -j2.",
-            "Modelled, not verified: agreement of check-mode counts with a real run is established by the differential runs, not by a theorem; zip/jar under --check pending the zip model (F1).",
+            "Modelled, not verified: the agreement theorem is per file and fault-free (C10_predicts_real); agreement of the summed counts over a tree, and under -jN, is established by the runs.",
             "DESIGN.md section 5-C10"),
     "C12": ("Coq theorem quantifying over every intermediate file-system state of a run (one per issued operation, i.e. every kill point), every handler, handler result, shape, profile and "
             "single fault: each state is pre-commit (file entirely original: same inode, content, metadata; every other name but the hidden temp one bound as before) or the one committed "
